@@ -75,11 +75,41 @@ fn apply(e: &mut Extensions, kind: u128, code: u128, prio: i128, name: &'static 
     }
 }
 
+fn full_listing(e: &Extensions) -> X {
+    let lists = X::L((0..5).map(|k| list_kind(e, k)).collect());
+    let maps = X::L((5..8).map(|k| list_kind(e, k)).collect());
+    X::L(vec![lists, maps])
+}
+
+/// what the real `Extensions::new()` lists (the start state of the "new" histories)
+fn new_listing(_x: &X) -> X {
+    full_listing(&Extensions::new())
+}
+
 /// input (L init (L (L kind code prio name)...)); output (L (L view...) (L (L listing x5) (L keys x3)))
+/// init: (N 0) `Extensions::empty()`, (N 1) `Extensions::new()`, (L lists maps) `Extensions::new()` provided it lists exactly
+/// this (else out of domain: the generator read the listing from another build)
 fn registry(x: &X) -> X {
     let l = match x.as_l() { Some(l) if l.len() == 2 => l, _ => return X::bad() };
-    let (init, reqs) = match (l[0].as_n(), l[1].as_l()) { (Some(i), Some(r)) => (i, r), _ => return X::bad() };
-    let mut e = if init == 0 { Extensions::empty() } else { Extensions::new() };
+    let reqs = match l[1].as_l() { Some(r) => r, None => return X::bad() };
+    let mut e = match l[0].as_n() {
+        Some(0) => Extensions::empty(),
+        Some(_) => Extensions::new(),
+        None => {
+            let e = Extensions::new();
+            if l[0].as_l().is_none() {
+                return X::bad();
+            }
+            let mut a = String::new();
+            let mut b = String::new();
+            full_listing(&e).write(&mut a);
+            l[0].write(&mut b);
+            if a != b {
+                return X::L(vec![X::N(96)]);
+            }
+            e
+        }
+    };
     let mut views = Vec::new();
     for r in reqs {
         let r = match r.as_l() { Some(r) if r.len() == 4 => r, _ => return X::bad() };
@@ -94,9 +124,7 @@ fn registry(x: &X) -> X {
         let ok = std::panic::catch_unwind(std::panic::AssertUnwindSafe(|| apply(&mut e, kind, code, prio, name))).is_ok();
         views.push(if ok { X::ok(list_kind(&e, kind)) } else { X::panic() });
     }
-    let lists = X::L((0..5).map(|k| list_kind(&e, k)).collect());
-    let maps = X::L((5..8).map(|k| list_kind(&e, k)).collect());
-    X::L(vec![X::L(views), X::L(vec![lists, maps])])
+    X::L(vec![X::L(views), full_listing(&e)])
 }
 
 /// input (L orient target (L key...)): the real `slice::binary_search_by`
@@ -148,6 +176,59 @@ fn present_line(x: &X) -> X {
     present(&X::b(&data))
 }
 
+/// input (B data): per extension of the line its name, its arguments read by `iter()` and by `iter().rev()`
+fn present_rev(x: &X) -> X {
+    let data = match x.as_b() { Some(d) => d, None => return X::bad() };
+    let extensions = match PresentExtensions::new(Bytes::copy_from_slice(data)) { Some(e) => e, None => return X::ok(X::opt(None)) };
+    let mut entries = Vec::new();
+    for ext in extensions {
+        let args: Vec<X> = ext.iter().map(|a| X::b(a.as_bytes())).collect();
+        let rargs: Vec<X> = ext.iter().rev().map(|a| X::b(a.as_bytes())).collect();
+        entries.push(X::L(vec![X::b(ext.name().as_bytes()), X::L(args), X::L(rargs)]));
+    }
+    X::ok(X::opt(Some(X::L(entries))))
+}
+
+fn drive<'a>(mut it: impl DoubleEndedIterator<Item = &'a str>, sched: &[bool]) -> (Vec<X>, Vec<X>) {
+    let (mut front, mut back) = (Vec::new(), Vec::new());
+    for &f in sched {
+        if f {
+            if let Some(a) = it.next() {
+                front.push(X::b(a.as_bytes()));
+            }
+        } else if let Some(a) = it.next_back() {
+            back.push(X::b(a.as_bytes()));
+        }
+    }
+    (front, back)
+}
+
+fn sched_of(x: &X) -> Option<Vec<bool>> {
+    x.as_l()?.iter().map(|b| b.as_bool()).collect()
+}
+
+/// input (L (B data) (L bit...)): per extension its name, its arguments, and what an interleaving of `next` (1) and
+/// `next_back` (0) on ONE iterator yields at the front and at the back
+fn present_sched(x: &X) -> X {
+    let l = match x.as_l() { Some(l) if l.len() == 2 => l, _ => return X::bad() };
+    let (data, sched) = match (l[0].as_b(), sched_of(&l[1])) { (Some(d), Some(s)) => (d, s), _ => return X::bad() };
+    let extensions = match PresentExtensions::new(Bytes::copy_from_slice(data)) { Some(e) => e, None => return X::ok(X::opt(None)) };
+    let mut entries = Vec::new();
+    for ext in extensions {
+        let args: Vec<X> = ext.iter().map(|a| X::b(a.as_bytes())).collect();
+        let (front, back) = drive(ext.iter(), &sched);
+        entries.push(X::L(vec![X::b(ext.name().as_bytes()), X::L(args), X::L(front), X::L(back)]));
+    }
+    X::ok(X::opt(Some(X::L(entries))))
+}
+
+fn empty_sched(x: &X) -> X {
+    let sched = match sched_of(x) { Some(s) => s, None => return X::bad() };
+    let a = PresentArguments::empty();
+    let (front, back) = drive(a.iter(), &sched);
+    X::ok(X::L(vec![X::L(front), X::L(back)]))
+}
+
 fn empty_args(_x: &X) -> X {
     let a = PresentArguments::empty();
     let first = a.iter().next();
@@ -167,6 +248,10 @@ pub fn dispatch(comp: &str, x: &X) -> Option<X> {
     Some(match comp {
         "reg.present_fn_getter" => present_fn_getter(x),
         "reg.ops" | "reg.ops_v0" => registry(x),
+        "reg.new_listing" => new_listing(x),
+        "present.parse_rev" => present_rev(x),
+        "present.sched" => present_sched(x),
+        "present.empty_sched" => empty_sched(x),
         "std.bsearch" => bsearch(x),
         "present.parse" | "present.parse_v0" => present(x),
         "present.line" => present_line(x),
